@@ -28,7 +28,7 @@ META = {
 }
 
 MODULE = "KafkaVerif.Props.C10"
-SCENARIOS = ["balancers", "writer", "codecs", "readerfront", "reader", "conn", "transport"]
+SCENARIOS = ["balancers", "writer", "codecs", "readerfront", "reader", "readergroup", "conn", "transport"]
 
 # exported methods reached by a driver operation besides the one it is named after
 OP_ALSO = {
@@ -45,6 +45,8 @@ OP_ALSO = {
     "Conn.WriteMessages": ["Conn.WriteCompressedMessages"],
     "Client.Produce": ["Transport.RoundTrip"], "Client.Fetch": ["Transport.RoundTrip"], "Client.Metadata": ["Transport.RoundTrip"],
     "Client.ListOffsets": ["Transport.RoundTrip"],
+    "Reader.FetchMessage+CommitMessages": ["Reader.FetchMessage", "Reader.CommitMessages"],
+    "Reader.Stats": ["Reader.Offset", "Reader.Lag", "Reader.SetOffset", "Reader.Config"],
 }
 
 HDR = re.compile(r"^(Read|Write|Previous read|Previous write|Atomic read|Atomic write|Previous atomic read|Previous atomic write) at 0x[0-9a-f]+ by (?:goroutine \d+|main goroutine):")
@@ -108,7 +110,7 @@ def run(ctx):
         "calls through interfaces and function values, and pointers to fields handed elsewhere (e.g. &c.rbuf inside messageSetReader), are not followed by the extractor",
         "hand-offs listed in go/extract/access_annotations.json (closure_locks, call_acquires, tokens, ctor_funcs, atomic_types) hold as justified there; tokens stand for channel/Once/WaitGroup ordering",
         "Go memory model as abstracted in Model/Lockset.lean: program order, unlock→lock (RUnlock↛RLock), go statement; atomics are race free among themselves",
-        "race-detector validation covers only the schedules that occurred in the generated programs (quick: 7 scenarios × 8 rounds; thorough: × 250 rounds × 4 seeds, GOMAXPROCS 2/4/8/16)",
+        "race-detector validation covers only the schedules that occurred in the generated programs (quick: 8 scenarios × 8 rounds; thorough: × 500 rounds × 4 seeds, GOMAXPROCS 2/4/8/16)",
     ]
     broken = []
     # ---- 1. regenerate the table
@@ -138,7 +140,7 @@ def run(ctx):
         broken.append({"kind": "obligation", "name": "correspondence C10 could not be built (oracle / go build -race)", "detail": (olog + dlog)[-1500:]})
     else:
         jobs = []
-        rounds = 250 if thorough else 8
+        rounds = 500 if thorough else 8
         seeds = [ctx.seed] if not thorough else [ctx.seed, ctx.seed + 1000, ctx.seed + 2000, ctx.seed + 3000]
         procs = [None] if not thorough else ["2", "4", "8", "16"]
         only = None
@@ -211,7 +213,7 @@ def run(ctx):
     dis = ctx.correspond(lines, orc, "race detector reports ↔ Gen/Accesses.lean (lockset table)",
                          nontrivial=lambda op, impl: op.startswith("round ")) if orc and lines else []
     # ---- coverage
-    ctx.coverage["rule"] = ("generated concurrent client programs: per scenario (balancers, writer+fake RoundTripper, codecs, reader front with failing dialer, reader/conn+batch/transport+client "
+    ctx.coverage["rule"] = ("generated concurrent client programs: per scenario (balancers, writer+fake RoundTripper, codecs, reader front with failing dialer, reader / consumer-group reader with a single-member fake coordinator / conn+batch / transport+client "
                             "against an in-process fake broker over net.Pipe) each round draws 5–18 operations from the exported methods (with forced Close / SetOffset / Seek / Batch.Err mixes), "
                             "runs each in its own goroutine released together, under `go build -race` without the verif tag (production synchronisation only). "
                             "distinct = distinct (scenario, operation multiset) rounds; evaluations also count one line per clean scenario run and per distinct detector report")
